@@ -50,7 +50,8 @@ Record layer := mkLayer {
   lskip_first : bool; lskip_odd : bool;  (* TileServiceGrid._skip_first_level / _skip_odd_level *)
   lqueryable : bool;                     (* has info_sources *)
   lmax_tiles : option Z;                 (* max_tile_limit (None or 0: no limit) *)
-  lmixed : bool                          (* cache `format: mixed` (request_format image/png) *)
+  lmixed : bool;                         (* cache `format: mixed` (request_format image/png) *)
+  lminimize : bool                       (* cache `minimize_meta_requests: true` *)
 }.
 
 (* TileLayer.format / format_mime_type: a layer on a mixed cache offers image/png and nothing else (the stored tile
@@ -109,11 +110,41 @@ Definition create_meta (ly : layer) (m : coord) : list effect :=
   let mem := somes (meta_members ly m) in
   map EProbe mem ++ [EUp (meta_bbox ly m) w h] ++ map EStore mem.
 
+(* MetaGrid.minimal_meta_tile + TileCreator._create_meta_tile (minimize_meta_requests, more than one missing tile):
+   one upstream request for the bounding block of the missing tiles (level of the last one, as _full_tile_list
+   takes it), every tile of the block is stored *)
+Definition cx (c : coord) : Z := fst (fst c).
+Definition cy (c : coord) : Z := snd (fst c).
+Definition cl (c : coord) : Z := snd c.
+Definition minimal_meta (ly : layer) (missing : list coord) : list effect :=
+  match rev missing with
+  | [] => []
+  | c0 :: _ =>
+    let z := cl c0 in
+    let minx := fold_right Z.min (cx c0) (map cx missing) in
+    let maxx := fold_right Z.max (cx c0) (map cx missing) in
+    let miny := fold_right Z.min (cy c0) (map cy missing) in
+    let maxy := fold_right Z.max (cy c0) (map cy missing) in
+    let xs := zrange minx maxx in
+    let ys := if ul (lg ly) then zrange miny maxy else rev (zrange miny maxy) in
+    let mem := somes (create_tile_list xs ys z (maxx + 1, maxy + 1)) in
+    map EProbe mem ++
+    [EUp (merge_bbox (tile_bbox (lg ly) minx miny z) (tile_bbox (lg ly) maxx maxy z))
+         ((maxx - minx + 1) * tw (lg ly)) ((maxy - miny + 1) * th (lg ly))] ++
+    map EStore mem
+  end.
+
+(* TileCreator.create_tiles: no meta grid (meta_size 1x1, no buffer) -> single tiles; minimize_meta_requests and
+   more than one missing tile -> one minimal meta tile; else one request per distinct meta tile *)
+Definition has_meta_grid (ly : layer) : bool := negb ((lmx ly =? 1) && (lmy ly =? 1)).
+
 Definition load_tile_coords (ly : layer) (cached : list coord) (cs : list (option coord)) : list effect :=
   let req := somes cs in
   let missing := filter (fun c => negb (coord_in c cached)) req in
   let metas := dedup_coords (map (main_tile ly) missing) in
-  map ERead req ++ map EProbe req ++ flat_map (create_meta ly) metas.
+  map ERead req ++ map EProbe req ++
+  (if has_meta_grid ly && lminimize ly && (1 <? Z.of_nat (length missing)) then minimal_meta ly missing
+   else flat_map (create_meta ly) metas).
 
 (* ---- TileServiceGrid.internal_tile_coord *)
 (* how a service reads the public level: (use_profiles, all_levels).  TMS counts the levels of a global profile
@@ -359,6 +390,16 @@ Definition serve_map (max_pixels : option Z) (se : option bbox) (ly : layer) (ca
   else match srs_limited se q with
        | None => (Ok, [])
        | Some q1 => layer_map ly cached q1
+       end.
+
+(* WMS GetMap on a layer that is backed directly by a WMS source (no cache: DirectMapLayer): the query - cut down
+   to the SRS extent - is forwarded as it is; the tiled flag means nothing to such a layer, so the pixel limit of
+   check_map_request is the only bound on its size.  (Queries with a non-zero size.) *)
+Definition serve_direct (max_pixels : option Z) (se : option bbox) (q : mreq) : answer * list effect :=
+  if over_pixel_limit max_pixels q then (Err TooLarge, [])
+  else match srs_limited se q with
+       | None => (Ok, [])
+       | Some q1 => (Ok, [EUp (mb q1) (mw q1) (mh q1)])
        end.
 
 (* ---- comparison helpers for the correspondence: effects are compared as sets per class, upstream requests
